@@ -139,6 +139,51 @@ def run(ctx, rep):
     import idkinds as idk_
     idk_.check_counter_kinds(ctx, rep, 'R03.g', ['server::streaming::'])
 
+    # ------------------------------------------------------------ R03.h what the loader does not restore keeps the constructor's value
+    rep.rule('R03.h', 'a loaded segment / partition / topic / stream is a constructed one with some fields overwritten by the loader: every field starts with its own confirmed value (paths from the path function of their own kind, positions and sizes from zero, end_timestamp not older than any query, shared counters in their own slot)', floor=75, analysis='A9')
+    sf.check_constructors(ctx, rep, 'R03.h')
+
+    # ------------------------------------------------------------ R03.i directories: the one tested is the one created / removed; purge re-creates what it deleted
+    rep.rule('R03.i', 'a directory is created (removed) under the existence test of the same path, and what purge deletes with delete_consumer_offsets it re-creates (the partition loader fails on a missing offsets directory and the topic loader only logs a failed partition)', floor=14, analysis='A9')
+    dir_pairing(ctx, rep, 'R03.i')
+
+
+def dir_pairing(ctx, rep, rid):
+    import forms as forms_
+    n = 0
+    for d in sorted(ctx.facts.body_defs()):
+        if not in_crate(d, 'server::streaming::') or '__CALLSITE' in d:
+            continue
+        b = ctx.body(d)
+        acts = [c for c in b.calls if c.name.split('::')[-1] in ('create_dir_all', 'remove_dir_all', 'create_dir', 'remove_dir') and is_user_call(c)]
+        if not acts:
+            continue
+        tests = [c for c in b.calls if c.name.endswith('Path::exists') or c.name.split('::')[-1] == 'try_exists']
+        fn = ctx.user_fn_of(d)
+        for c in acts:
+            form = canon(b.pexpr_operand(c.args[0], 0, frozenset(), (c.bb, 't')), 0, 1)
+            lits = b.literals_at(c.bb)
+            if not lits or not (expr_has_call(lits[-1]['expr'], 'Path::exists') or expr_has_call(lits[-1]['expr'], 'try_exists')):
+                continue   # the nearest branch the call depends on is not an existence test
+            dom = [t for t in tests if t.bb != c.bb and b.dominates(t.bb, lits[-1]['bb'])]
+            if not dom:
+                continue
+            t = max(dom, key=lambda t_: len(b.dominators(t_.bb)))   # the nearest dominating test
+            tf = canon(b.pexpr_operand(t.args[0], 0, frozenset(), (t.bb, 't')), 0, 2)
+            tf = tf[len('Path::new('):-1] if tf.startswith('Path::new(') else tf
+            ok = tf == form
+            n += 1
+            rep.ob(rid, fn, '%s(%s) under exists(%s)' % (c.name.split('::')[-1], form, tf), ok, c.where(), None if ok else
+                   'the existence of `%s` is tested but `%s` is %s: the tested directory is never %s' % (tf, form, 'created' if 'create' in c.name else 'removed', 'created' if 'create' in c.name else 'removed'))
+    PURGE = sf.PURGE
+    deleted = {f.split(', ')[-1] for _, f, _ in forms_.call_arg_forms(ctx, PURGE, 'delete_consumer_offsets', skip_self=False)}
+    created = {f for _, f, _ in forms_.call_arg_forms(ctx, PURGE, 'create_dir_all', skip_self=False)}
+    if not deleted:
+        rep.anchor_lost(rid, 'delete_consumer_offsets in Partition::purge')
+    for f in sorted(deleted):
+        ok = f in created
+        rep.ob(rid, PURGE, 're-creates %s' % f, ok, None, None if ok else 'purge deletes the directory `%s` and does not create it again (created: %s): the partition cannot be loaded after the next restart' % (f, sorted(created)))
+
 
 def _mentions_time(body, e):
     for x in walk(e):
